@@ -647,6 +647,34 @@ func (w *Worker) Run(h History, draws int) *Outcome {
 				check("grpc", "", w.doGRPC(md.full))
 			}
 		}
+		// a literal binding of service B on a path that a variable binding
+		// of service A covers too: B's while B has a provider, A's otherwise
+		for i := 0; i < 2; i++ {
+			a := w.doHTTP(reqSpec{Verb: "GET", Path: "/ov/lit/one", Binding: "literal-over-variable"})
+			out.NReq++
+			if ps := w.takePanics(); len(ps) > 0 {
+				fail(step, "http:"+ps[0].Key(), "GET /ov/lit/one panicked inside larking: %s", ps[0].Value)
+				continue
+			}
+			want, live := "", map[string]bool{}
+			if lb := m.live("B"); len(lb) > 0 {
+				want, live = "/vf.rs.B/Get", lb
+			} else if la := m.live("A"); len(la) > 0 {
+				want, live = "/vf.rs.A/Get", la
+			}
+			switch {
+			case a.Class == "timeout":
+				out.Incon = append(out.Incon, "GET /ov/lit/one timed out")
+			case want == "" && a.Class == "served":
+				fail(step, "served-by-dropped", "GET /ov/lit/one answered by %q although neither service has a live back-end in the model", a.Tag)
+			case want != "" && a.Class == "unimplemented":
+				fail(step, "http[literal-over-variable]:unimplemented-with-live-backend", "GET /ov/lit/one answered Unimplemented/NotFound (%s) while %s has live back-ends %v", a.Detail, want, keys(live))
+			case want != "" && a.Class == "served" && (a.Method != want || !live[a.Tag]):
+				fail(step, "http[literal-over-variable]:wrong-owner", "GET /ov/lit/one was served as %s by %q; the model expects %s from one of %v", a.Method, a.Tag, want, keys(live))
+			case want != "" && a.Class != "served":
+				fail(step, "http[literal-over-variable]:"+a.Class, "GET /ov/lit/one ended with %s (%s); the model expects %s from one of %v", a.Class, a.Detail, want, keys(live))
+			}
+		}
 	}
 	return out
 }
